@@ -328,7 +328,8 @@ func c16PolList(arg string) []string {
 
 // policy <opts> <allow> <deny> <cache lists> <hx server name> <well-known script>
 //
-//	opts         letters: w = WithWellKnownSRVLookups(true), c = WithDNSCache; - = neither
+//	opts         letters: w = WithWellKnownSRVLookups(true), c = WithDNSCache; - = neither; p (with c) = a second, unrestricted
+//	             client sharing the cache object made the same request first
 //	allow, deny  - (nil) | hx(cidr),hx(cidr)…   the client's WithAllowDenyNetworks lists
 //	cache lists  same | open | nil   the lists NewDNSCache is given: the client's / allow everything / nil, nil
 //	server name  with the symbolic ports 5 (F) and 6 (G)
@@ -410,7 +411,26 @@ func c16ExecPolicy(args []string) string {
 		case "nil":
 			ca, cd = nil, nil
 		}
-		opts = append(opts, fclient.WithDNSCache(fclient.NewDNSCache(16, time.Minute, ca, cd)))
+		cache := fclient.NewDNSCache(16, time.Minute, ca, cd)
+		opts = append(opts, fclient.WithDNSCache(cache))
+		if strings.Contains(args[0], "p") {
+			// p: ANOTHER client, permitted to go anywhere, shares the cache object and asks for the same name first; the lists
+			// of the client under test must still govern its own connections (seeded change C16-r8m1: the cache memoised the
+			// first client's dialer with its control function)
+			first := fclient.NewClient(fclient.WithSkipVerify(true), fclient.WithTimeout(5*time.Second),
+				fclient.WithAllowDenyNetworks([]string{"0.0.0.0/0", "::/0"}, nil), fclient.WithDNSCache(cache))
+			if req0, err := http.NewRequest("GET", "matrix://"+name+"/_matrix/federation/v1/version", nil); err == nil {
+				if resp0, err := first.DoHTTPRequest(context.Background(), req0); err == nil {
+					_, _ = io.Copy(io.Discard, resp0.Body)
+					_ = resp0.Body.Close()
+				}
+			}
+			wkTransport.CloseIdleConnections()
+			time.Sleep(15 * time.Millisecond)
+			c16PolMu.Lock()
+			c16PolArrivals = nil
+			c16PolMu.Unlock()
+		}
 	}
 	client := fclient.NewClient(opts...)
 	res := "|ok"
@@ -1165,7 +1185,7 @@ func c16GenPolicy(o *Out, r *Rng, tier string) {
 	type combo struct {
 		opts, cache string
 	}
-	combos := []combo{{"-", "same"}, {"w", "same"}, {"c", "same"}, {"c", "open"}, {"wc", "same"}, {"wc", "open"}, {"c", "nil"}}
+	combos := []combo{{"-", "same"}, {"w", "same"}, {"c", "same"}, {"c", "open"}, {"wc", "same"}, {"wc", "open"}, {"cp", "open"}, {"wcp", "open"}, {"c", "nil"}}
 	run := func(c combo, li int, name string) {
 		scripts := []string{"."}
 		if strings.Contains(c.opts, "w") && !strings.Contains(name, ":") && !strings.HasPrefix(name, "127.") {
@@ -1188,7 +1208,7 @@ func c16GenPolicy(o *Out, r *Rng, tier string) {
 		}
 		return
 	}
-	for _, c := range combos[:6] {
+	for _, c := range combos[:8] {
 		for _, li := range []int{4, 2, 3} {
 			for _, name := range []string{"h1.example.com:5", "127.16.2.1:5", "h6.example.com:6", "h1.example.com", "hh.example.com:5"} {
 				run(c, li, name)
